@@ -31,7 +31,7 @@ pub fn linear_to_bt709(samples: &mut [f32]) {
         if std::arch::is_x86_feature_detected!("avx2") && std::arch::is_x86_feature_detected!("fma")
         {
             unsafe { linear_to_bt709_x86_64_avx2(samples) }
-        } else {
+        } else if std::arch::is_x86_feature_detected!("sse4.1") {
             let mut it = samples.chunks_exact_mut(4);
             for chunk in &mut it {
                 unsafe {
@@ -55,6 +55,8 @@ pub fn linear_to_bt709(samples: &mut [f32]) {
                 }
             }
             it.into_remainder()
+        } else {
+            samples
         }
     };
 
